@@ -3,6 +3,8 @@ package minibus
 import (
 	"context"
 	"sync"
+
+	"github.com/smart-core-os/sc-golang/internal/simhook"
 )
 
 type Bus struct {
@@ -13,6 +15,7 @@ type Bus struct {
 func (b *Bus) Send(ctx context.Context, event any) (ok bool) {
 	// create a copy of the listeners so avoid holding the mutex a long time
 	var listeners []*listener
+	simhook.BeforeRLock("bus.send.snapshot", &b.listenerM)
 	b.listenerM.RLock()
 	for _, l := range b.listeners {
 		listeners = append(listeners, l)
@@ -23,6 +26,7 @@ func (b *Bus) Send(ctx context.Context, event any) (ok bool) {
 
 	// send the event to each listener that's not closed
 	for _, l := range listeners {
+		simhook.Yield("bus.send.each")
 		ok, active := l.send(ctx, event)
 		if !ok {
 			return false
@@ -41,6 +45,7 @@ func (b *Bus) Send(ctx context.Context, event any) (ok bool) {
 }
 
 func (b *Bus) collect() {
+	simhook.BeforeLock("bus.collect", &b.listenerM)
 	b.listenerM.Lock()
 	defer b.listenerM.Unlock()
 
@@ -68,6 +73,7 @@ func (b *Bus) Listen(ctx context.Context) <-chan any {
 	}()
 
 	// store the listener
+	simhook.BeforeLock("bus.listen.register", &b.listenerM)
 	b.listenerM.Lock()
 	defer b.listenerM.Unlock()
 	b.listeners = append(b.listeners, l)
